@@ -1393,6 +1393,196 @@ def w_wrap(cases):
     return out
 
 
+# --------------------------------------------------------------------------- leg E: vendor get_io_buffer overrides
+VENDOR_PLATFORMS = {
+    # name: (attribute of amaranth.vendor, class attributes of a minimal concrete subclass)
+    "ice40": ("SiliconBluePlatform", {"device": "iCE40HX8K", "package": "CT256", "default_clk": None}),
+    "ecp5": ("LatticePlatform", {"device": "LFE5U-25F", "package": "BG256", "speed": "6"}),
+    "machxo2": ("LatticePlatform", {"device": "LCMXO2-1200HC", "package": "TG100", "speed": "6"}),
+    "nexus": ("LatticePlatform", {"device": "LIFCL-40", "package": "BG400", "speed": "9"}),
+    "xilinx7": ("XilinxPlatform", {"device": "xc7a35t", "package": "csg324", "speed": "1"}),
+    "altera": ("AlteraPlatform", {"device": "5CSEMA5", "package": "F31", "speed": "C6"}),
+    "gowin": ("GowinPlatform", {"part": "GW1N-LV1QN48C6/I5", "family": "GW1N-1", "parse_part": lambda self: None}),
+}
+
+
+def vendor_platform(name):
+    from amaranth import vendor
+    base, attrs = VENDOR_PLATFORMS[name]
+    cls = type("C18" + name, (getattr(vendor, base),), dict(attrs, resources=[], connectors=[]))
+    return cls()
+
+
+def _vendor_build(case, plat):
+    from amaranth.hdl import Module, ClockDomain, IOPort
+    from amaranth.build.res import PortMetadata
+    from amaranth.lib import io
+    kind, w, mask, cls, bufdir = case["kind"], case["w"], case["mask"], case["cls"], case["bufdir"]
+    inv = tuple(bool((mask >> j) & 1) for j in range(w))
+    md = lambda pre: tuple(PortMetadata(f"{pre}{j}", {}) for j in range(w))
+    if kind == "se":
+        iop = {"io": IOPort(w, name="pv", metadata=md("pv"))}
+        port = io.SingleEndedPort(iop["io"], invert=inv)
+    else:
+        iop = {"p": IOPort(w, name="pvp", metadata=md("pvp")), "n": IOPort(w, name="pvn", metadata=md("pvn"))}
+        port = io.DifferentialPort(iop["p"], iop["n"], invert=inv)
+    m = Module()
+    m.domains.sync = cd = ClockDomain("sync")
+    buf = getattr(io, cls)(bufdir, port)
+    m.submodules.buf = buf
+    ports = ([buf.i] if bufdir != "o" else []) + ([buf.o, buf.oe] if bufdir != "i" else []) + [cd.clk, cd.rst]
+    return m, ports, buf, iop, cd
+
+
+def _vendor_case(case, out):
+    """the plain-Amaranth logic around the vendor pad cells of a platform's get_io_buffer lowering"""
+    from amaranth.hdl._ir import Fragment, build_netlist
+    from amaranth.back import rtlil
+    from ..ref.c18_netlist import NirEval, RtlilEval, parse_rtlil
+    plat_name, kind, w, mask, cls, bufdir = case["plat"], case["kind"], case["w"], case["mask"], case["cls"], case["bufdir"]
+    tag = f"{plat_name}: {cls}({bufdir}) on a {kind} port (width {w}, invert mask {mask:0{w}b})"
+    sigbase = f"{plat_name}:{cls}:{bufdir}:{kind}:w{w}:m{mask:0{w}b}"
+    plat = vendor_platform(plat_name)
+    out["cov"]["evaluations"] += 1
+    m, ports, buf, iop, cd = _vendor_build(case, plat)
+    try:
+        frag = Fragment.get(m, plat)
+    except (TypeError, NotImplementedError, ValueError) as e:
+        import traceback
+        if "/amaranth/vendor/" not in traceback.extract_tb(e.__traceback__)[-1].filename:
+            raise
+        # a combination the vendor lowering declines (e.g. iCE40 bidirectional differential): nothing to judge
+        _inc(out, "vendor_declined")
+        out.setdefault("declined", []).append(f"{plat_name}:{cls}:{bufdir}:{kind}")
+        return
+    nl = build_netlist(frag, ports=ports, name="top")
+    _inc(out, "vendor_designs")
+    if mask not in (0, (1 << w) - 1):
+        _inc(out, "vendor_mixed_mask_designs")
+        out["cov"]["distinct_nontrivial"] += 1
+    ev = NirEval(nl, vendor=True)
+    for s_ in (cd.clk, cd.rst):
+        if s_ in nl.signals:
+            ev.set_signal(s_, 0)
+    pidx = {id(p): k for k, p in enumerate(nl.io_ports)}
+    pads = [(ci, spec, touch, (lambda k, memo, ci=ci, c=c, spec=spec: ev.vendor_pins(ci, c, spec, k, memo)))
+            for ci, c, spec, touch in ev.vendor_pads()]
+    keyof = {h: {j: (pidx.get(id(p)), j) for j in range(w)} for h, p in iop.items()}
+    bad = _vendor_semantics(case, pads, keyof, ev.vfree,
+                            lambda o, oe: (ev.set_signal(buf.o, o), ev.set_signal(buf.oe, oe)) if bufdir != "i" else None,
+                            lambda memo: ev.value(ev.sig_nets(buf.i), memo), out)
+    if bad:
+        _viol(out, f"vendor:nir:{sigbase}:{bad[0]}", f"{tag}: fine netlist: {bad[1]}", case)
+    m2, ports2, buf2, iop2, _cd2 = _vendor_build(case, plat)
+    text, _n = rtlil.convert_fragment(Fragment.get(m2, plat), ports=ports2, name="top", emit_src=False)
+    _inc(out, "vendor_rtlil_texts")
+    try:
+        rv = RtlilEval(parse_rtlil(text), "\\top")
+        rv.transparent_ff = True
+        pads = [(cid, spec, touch, (lambda k, memo, cid=cid, spec=spec, cn=cn, path=path: rv.vendor_pins(cid, spec, cn, path, k, memo)))
+                for cid, _typ, spec, cn, path, touch in rv.vendor_pads()]
+        keyof = {h: {j: rv.terminal(((), "\\" + p.name, j)) for j in range(w)} for h, p in iop2.items()}
+        bad = _vendor_semantics(case, pads, keyof, rv.vfree,
+                                lambda o, oe: (rv.set_top("\\o", o), rv.set_top("\\oe", oe)) if bufdir != "i" else None,
+                                lambda memo: rv.top_value("\\i", memo), out)
+    except Exception as e:      # noqa: BLE001
+        bad = ("malformed", f"the emitted RTLIL cannot be interpreted: {type(e).__name__}: {e}")
+    if bad:
+        _viol(out, f"vendor:rtlil:{sigbase}:{bad[0]}", f"{tag}: RTLIL: {bad[1]}", case)
+
+
+def _vendor_semantics(case, pads, keyof, vfree, set_inputs, get_i, out):
+    """pads: [(cell id, spec, {pad bit key: (role, channel)}, pins(channel, memo) -> (din, enable, dout key))]"""
+    kind, w, mask, bufdir = case["kind"], case["w"], case["mask"], case["bufdir"]
+    drive, sense = bufdir != "i", bufdir != "o"
+    true_half = "io" if kind == "se" else "p"
+    # ---- which vendor cell handles which port bit
+    plan = []           # (j, pins of the true-half cell, channel, [(pins, channel) of separate complement-half cells])
+    claimed = set()
+    for j in range(w):
+        users = [(cid, touch[keyof[true_half][j]], pins) for cid, _s, touch, pins in pads if keyof[true_half][j] in touch]
+        if len(users) != 1 or users[0][1][0] != "pad":
+            return ("uses", f"bit {j} of the port is handled by {len(users)} vendor pad cells {[u[0] for u in users]}, want exactly one (true pin)")
+        cid, (_role, k), pins = users[0]
+        claimed.add((cid, keyof[true_half][j]))
+        extra = []
+        if kind == "diff":
+            nusers = [(c2, touch[keyof["n"][j]], p2) for c2, _s, touch, p2 in pads if keyof["n"][j] in touch]
+            if len(nusers) > 1:
+                return ("uses", f"complement bit {j} is handled by {len(nusers)} vendor cells")
+            for c2, (role2, k2), p2 in nusers:
+                claimed.add((c2, keyof["n"][j]))
+                if role2 == "padn":
+                    if c2 != cid or k2 != k:
+                        return ("uses", f"complement bit {j} sits on the complement pin of another cell / channel than the true bit")
+                else:
+                    extra.append((p2, k2))
+        plan.append((j, pins, k, extra))
+    for cid, _s, touch, _p in pads:
+        for key in touch:
+            if (cid, key) not in claimed:
+                return ("uses", f"vendor cell {cid} also touches {key}, which is not the port bit it serves")
+    # ---- values: every (o, oe, value delivered by each pad cell)
+    nval = 0
+    for o in (range(1 << w) if drive else [0]):
+        for oe in ((0, 1) if drive else [0]):
+            for x in (range(1 << w) if sense else [0]):
+                nval += 1
+                set_inputs(o, oe)
+                memo = {}
+                # the free outputs of the pad cells must be in place before anything is evaluated
+                pre = [(j, pins(k, {})) for j, pins, k, _e in plan]
+                vfree.clear()
+                for j, (_d, _e, dkey) in pre:
+                    if dkey is not None:
+                        vfree[dkey] = _bit(x, j)
+                for j, pins, k, extra in plan:
+                    inv = (mask >> j) & 1
+                    din, en, dkey = pins(k, memo)
+                    if drive:
+                        if din != _bit(o, j) ^ inv:
+                            return ("o", f"o={o:0{w}b} oe={oe}: the data reaching the pad cell of bit {j} is {din}, want o[{j}]^{inv} = {_bit(o, j) ^ inv}")
+                        if en != oe:
+                            return ("oe", f"o={o:0{w}b} oe={oe}: the (active-high) enable reaching the pad cell of bit {j} is {en}")
+                        for p2, k2 in extra:
+                            d2, e2, dk2 = p2(k2, memo)
+                            if d2 != 1 - (_bit(o, j) ^ inv) or e2 != oe or dk2 is not None:
+                                return ("o_n", f"o={o:0{w}b} oe={oe}: the complement pad cell of bit {j} gets data {d2}, enable {e2}, "
+                                        f"want {1 - (_bit(o, j) ^ inv)}, {oe} and no input path")
+                    elif din is not None or extra:
+                        return ("uses", f"an input buffer has a pad cell with a data input / a complement cell for bit {j}")
+                    if sense and dkey is None:
+                        return ("i", f"the pad cell of bit {j} has no output towards the fabric")
+                if sense:
+                    got = get_i(memo)
+                    want = x ^ mask
+                    if got != want:
+                        return ("i", f"pad cells deliver {x:0{w}b}: buffer i = {got:0{w}b}, want {want:0{w}b} (mask {mask:0{w}b})")
+    _inc(out, "vendor_valuations", nval)
+    out["cov"]["evaluations"] += nval
+    return None
+
+
+def vendor_cases():
+    cases = []
+    for plat in VENDOR_PLATFORMS:
+        for kind in ("se", "diff"):
+            for w in (1, 2, 3):
+                for mask in range(1 << w):
+                    for cls in ("Buffer", "FFBuffer"):
+                        for bufdir in DIRS:
+                            cases.append({"leg": "vendor", "plat": plat, "kind": kind, "w": w, "mask": mask, "cls": cls, "bufdir": bufdir})
+    return cases
+
+
+def w_vendor(cases):
+    warnings.simplefilter("ignore")
+    out = _new_out()
+    for case in cases:
+        vendor_case(case, out)
+    return out
+
+
 def _guarded(fn, prefix):
     """anything the legs do to a legal design must work: an exception escaping from amaranth is a finding,
     not a harness error (the exception class is part of the signature)"""
@@ -1405,7 +1595,9 @@ def _guarded(fn, prefix):
             inside = [f for f in tb if "/amaranth/" in f.filename]
             if not inside:
                 raise               # a bug of the check itself stays a harness error
-            if "wrappers" in case:
+            if "plat" in case:
+                ts = f"{case['plat']}:w{case['w']}:m{case['mask']:b}"
+            elif "wrappers" in case:
                 ts = f"w{case['w']}:{case['place']}:{'>'.join(case['wrappers'])}"
             elif "term" not in case:
                 ts = "+".join(f"[{a}:{e}]={d}" for a, e, d in case["parts"]) + f":w{case['w']}"
@@ -1422,10 +1614,11 @@ sim_case = _guarded(_sim_case, "simbuf")
 net_case = _guarded(_net_case, "net")
 dirs_case = _guarded(_dirs_case, "net:multi")
 wrap_case = _guarded(_wrap_case, "net:wrapped")
+vendor_case = _guarded(_vendor_case, "vendor")
 
 
 # =============================================================================================== driver
-WORKERS = {"A": w_algebra, "Amix": w_algebra_mixed, "B": w_sim, "C": w_ff, "D": w_net, "D2": w_two_buffers, "D3": w_port_dirs, "D4": w_wrap}
+WORKERS = {"A": w_algebra, "Amix": w_algebra_mixed, "B": w_sim, "C": w_ff, "D": w_net, "D2": w_two_buffers, "D3": w_port_dirs, "D4": w_wrap, "E": w_vendor}
 
 
 def _dispatch(t):
@@ -1465,10 +1658,14 @@ def run(rep):
             tasks.append(("D3", (kind, w, rep.quick)))
     for ch in chunks(wrap_cases(rep.quick), 24):
         tasks.append(("D4", ch))
+    for ch in chunks(vendor_cases(), 48):
+        tasks.append(("E", ch))
     tasks = rotate(tasks, rep.seed)
     flags = set()
+    declined = set()
     for part in pmap(_dispatch, tasks, rep.procs):
         flags.update(part.pop("flags", []))
+        declined.update(part.pop("declined", []))
         leg = part.pop("leg")
         if leg == "C":
             for s in part["samples"]:
@@ -1485,6 +1682,8 @@ def run(rep):
     rep.setcov("sim_expressions", len(sc))
     rep.setcov("net_expressions", len(nc))
     rep.setcov("ff_flags_seen", sorted(flags))
+    rep.setcov("vendor_platforms", sorted(VENDOR_PLATFORMS))
+    rep.setcov("vendor_declined_combinations", sorted(declined))
     rep.setcov("exhaustive", cov.get("ff_capped", 0) == 0)
     rep.setcov("rule",
                "A: every port expression of depth<=2 over ~, [k], [a:b:step], + on the 45 base ports (width 0..3 x every inversion mask x i/o/io) "
@@ -1503,7 +1702,12 @@ def run(rep):
                "FFBuffer (width 1; thorough 1..2) i/o/io on real ports wrapped directly / one / two modules up by EnableInserter, ResetInserter, "
                "DomainRenamer(sync->other) and every nesting of two: netlist and RTLIL, every (o, oe, pad, en/rst) valuation; Buffer behaviour is "
                "independent of the controls, FFBuffer by BFS with an edge of either clock after every valuation against the documented rules "
-               "(enable gates the registers, reset-less registers ignore inserted resets, the renamer moves them to the other clock). non-trivial = derived (non-base) non-empty expression / simulated or converted case with a "
+               "(enable gates the registers, reset-less registers ignore inserted resets, the renamer moves them to the other clock). E: every platform "
+               "overriding get_io_buffer (iCE40, ECP5, MachXO2, Nexus, Xilinx 7-series, Altera, Gowin): Buffer/FFBuffer i/o/io on SingleEnded/Differential "
+               "ports of width 1..3 with every inversion mask, lowered through the platform; vendor pad cells are opaque per-bit boxes, registers and "
+               "register cells transparent, LUT4 by its INIT: for every (o, oe, pad-cell output) valuation, in netlist and RTLIL, the data reaching the "
+               "pad cell of wire j is o[j]^invert[j] (complement cell: its negation), its enable is oe, i[j] is the cell output ^invert[j], and every "
+               "port bit is served by exactly one pad cell. non-trivial = derived (non-base) non-empty expression / simulated or converted case with a "
                "non-zero inversion mask / reachable FFBuffer product state / overlapping two-buffer pair")
     rep.setcov("bounds", {
         "base_ports": "width 0..3, all masks, directions i/o/io (45 per port class)",
@@ -1533,6 +1737,8 @@ def run(rep):
             "dirs_rtlil_texts": "multi-buffer RTLIL texts", "dirs_valuations": "multi-buffer valuations",
             "wrap_driving_designs_under_control_inserters": "o/io buffers on real ports under EnableInserter/ResetInserter",
             "wrap_rtlil_texts": "RTLIL texts of wrapped buffers", "wrap_transitions": "wrapped-buffer valuations / edges",
+            "vendor_mixed_mask_designs": "vendor lowerings of ports with a mixed inversion mask",
+            "vendor_rtlil_texts": "RTLIL texts of vendor lowerings", "vendor_valuations": "vendor lowering valuations",
             "two_buffers_conflict": "overlapping two-buffer designs", "two_buffers_disjoint": "disjoint two-buffer designs",
             "ff_states": "FFBuffer product states", "ff_traces_validated": "BFS traces replayed from reset"}
     # a run that already reports violations is not a pass; guards whose counters sit behind a failing step
@@ -1558,6 +1764,8 @@ def replay(payload):
         sim_case(payload, out)
     elif leg == "net":
         net_case(payload, out)
+    elif leg == "vendor":
+        vendor_case(payload, out)
     elif leg == "wrap":
         wrap_case(payload, out)
     elif leg == "dirs":
